@@ -39,6 +39,7 @@ import BVM.Proofs.Read
 import BVM.Proofs.Oib
 import BVM.Proofs.RoundTrip
 import BVM.Proofs.RoundTripPre
+import BVM.Proofs.LenScope
 namespace BVM
 
 theorem scalar_roundtrip (bo : ByteOrder) (vt : CInt) (buf : Buf) (base start len : Nat) (v : Int)
@@ -148,6 +149,14 @@ theorem record_roundtrip_exec (env : SerEnv) (pfx : String) (args : Args) (S : S
     s.at_ ≤ (serRoot env pfx (buildRoot specNone S) args s).at_ :=
   struct_roundtrip_exec env pfx args S s hpre h
 
+/-- the hypothesis on sequence lengths is a consequence of the structure's shape: if each dynamic array's length member
+    (`__<name>_len`, generated by the front end in front of the array) is an unsigned integer of at most 32 bits that no
+    later member shadows, and the length argument fits it, then every sequence finds its count (`LenScopeOK`) -/
+theorem length_scope_from_structure (pfx : String) (args : Args) (S : Struct) (h : LenSyn pfx args [] S.members) :
+    LenScopeOK pfx args S.members [] := by
+  have := lenScopeOK_of_lenSyn pfx args S.members [] h
+  simpa [scopeOf] using this
+
 /-- the side conditions on a member follow from the well-formedness the front end guarantees -/
 theorem member_side_conditions (S : Struct) (hS : ∃ j, S.align = 2 ^ j) (pfx : String) (args : Args) (m : Member)
     (hm : m ∈ S.members) (hnu : m.ft ≠ .uuid) (hwf : m.ft.leaf.WF) (hl : ∀ l ∈ args.get (pfx ++ "_" ++ m.name), LeafOK l) :
@@ -188,6 +197,13 @@ def c01Args : Args := [("p_n", [.num 2]), ("p_a", [.num 5, .num 33]), ("p_t", [.
 def c01St : SerSt := ⟨List.replicate 16 255, 3, [], [], false, []⟩
 
 example : rootPreb c01Env c01St.buf.length "p" c01Args c01R c01St.at_ = true := by decide +kernel
+example : LenSyn "p" c01Args [] c01R.members := by
+  simp only [c01R, LenSyn, List.nil_append, List.cons_append]
+  refine ⟨by simp, ?_, by simp, by simp, by simp, trivial⟩
+  intro ln e hft
+  simp only [FT.darr.injEq] at hft
+  obtain ⟨rfl, rfl⟩ := hft
+  exact ⟨[], [], 8, 8, rfl, by simp, by decide, by decide +kernel, by decide +kernel⟩
 example : Frame c01Env 16 c01R.align := ⟨by simp [c01Env], by decide, by decide⟩
 example : (serRoot c01Env "p" (buildRoot specNone c01R) c01Args c01St).oob = false := by decide +kernel
 example : LenScopeOK "p" c01Args c01R.members [] := lenScopeOKb_sound _ _ _ _ (by decide +kernel)
@@ -222,5 +238,6 @@ example : readStruct .be (serRoot c01Env "p" (buildRoot specNone c01R) c01Args c
 #print axioms static_start_bits_are_dynamic
 #print axioms record_roundtrip
 #print axioms record_roundtrip_exec
+#print axioms length_scope_from_structure
 #print axioms member_side_conditions
 end BVM
